@@ -941,21 +941,35 @@ def fit_slope(rs, es):
     return float(sl), float(ic)
 
 
-RT_FLOOR, EN_FLOOR = 3e-13, 1e-11
+R0 = 0.4
+EPS = 2.220446049250313e-16
 
 
-def scaling_one(ctx, cfg, u, r0=0.4, replaying=False):
-    """errors along the ray r*u; returns dict with fitted exponents"""
+def floors(point, EL):
+    """scale-aware rounding floors (100 x the rounding noise) of the two discrepancies: the synodic state carries ~eps
+    absolute error which `_synodic2local` divides by gamma; the energy difference E - E_L carries ~eps*|E_L| which is divided
+    by gamma^2.  (EM L1: 1.5e-13, 1.5e-12.)"""
+    g = float(point.dynamics.gamma)
+    return 100 * EPS * max(1.0, 1.0 / g), 100 * EPS * max(1.0, abs(EL)) / g ** 2
+
+
+def radii(N):
+    ratio = 2 ** -0.5 if N <= 6 else 2 ** -0.25
+    return [R0 * ratio ** j for j in range(16 if N <= 6 else 20)]
+
+
+def ray_errors(ctx, cfg, u):
+    """round-trip error and energy discrepancy on the real code along the ray r*u (r decreasing until both are below the
+    rounding floor)"""
     h = hiten()
     system, point, cm = get_cm(*cfg)
     N = cfg[2]
     mu = system.mu
     EL = float(h["crtbp_energy"](np.r_[point.position, 0.0, 0.0, 0.0], mu))
     ham = cm.hamiltonian(N)
-    ratio = 2 ** -0.5 if N <= 6 else 2 ** -0.25
-    rs, rts, ens = [], [], []
-    r = r0
-    for j in range(14):
+    RT_FLOOR, EN_FLOOR = floors(point, EL)
+    rts, ens = [], []
+    for j, r in enumerate(radii(N)):
         p = [r * x for x in u]
         if j == 0:
             unmemo(cm)
@@ -963,26 +977,40 @@ def scaling_one(ctx, cfg, u, r0=0.4, replaying=False):
             memo_expansions(cm)
         rt, en, s = measure_point(cm, ham, point, mu, EL, p)
         if j == 0 and not (first[0] == rt and first[1] == en and np.array_equal(first[2], s)):
-            ctx.violation("to_synodic-not-reproducible", "two identical conversions differ", {"kind": "scaling", "cfg": list(cfg), "u": list(u), "r": r})
-        rs.append(r)
+            ctx.violation("to_synodic-not-reproducible", "two identical conversions differ", {"kind": "scaling", "cfg": list(cfg), "dirs": [list(u)], "r": r})
         rts.append(rt)
         ens.append(en)
         if rt < RT_FLOOR and en < EN_FLOOR and j >= 2:
             break
-        r *= ratio
-    res = {"cfg": list(cfg), "u": list(u), "r": rs, "round_trip": rts, "energy": ens}
-    for name, es, floor in (("round_trip", rts, RT_FLOOR), ("energy", ens, EN_FLOOR)):
-        sel = [(a, b) for a, b in zip(rs, es) if b >= floor]
-        if len(sel) < 3:
-            sel = list(zip(rs, es))[:3]
-        # asymptotic regime: the smallest four radii whose error is still above the rounding floor (err/r^(N+1) tends to
-        # its limit from below or above as r -> 0, so the largest radii bias the exponent)
-        tail = sel[-4:]
-        sl, ic = fit_slope([a for a, _ in tail], [max(b, 1e-300) for _, b in tail])
-        res[name + "_exponent"] = sl
-        res[name + "_exponent_all"] = fit_slope([a for a, _ in sel], [max(b, 1e-300) for _, b in sel])[0]
-        res[name + "_const"] = max(b / a ** (N + 1) for a, b in sel)
-        res[name + "_points"] = len(sel)
+    return rts, ens
+
+
+def envelope_fit(N, rs, es, floor):
+    """asymptotic exponent of the envelope e(r) = max over directions: least squares over the three smallest radii whose
+    error is still above the rounding floor (err / r^(N+1) tends to its limit from below or above as r -> 0, and along a
+    single direction it may even change sign at moderate r, hence the envelope and the smallest measurable radii)"""
+    sel = [(a, b) for a, b in zip(rs, es) if b >= floor]
+    if len(sel) < 3:
+        sel = list(zip(rs, es))[:3]
+    tail = sel[-3:]
+    sl = fit_slope([a for a, _ in tail], [max(b, 1e-300) for _, b in tail])[0]
+    return {"exponent": sl, "exponent_all": fit_slope([a for a, _ in sel], [max(b, 1e-300) for _, b in sel])[0],
+            "const": max(b / a ** (N + 1) for a, b in sel), "points": len(sel), "tail_radii": [a for a, _ in tail]}
+
+
+def scaling_cfg(ctx, cfg, dirs):
+    N = cfg[2]
+    rs = radii(N)
+    per = [ray_errors(ctx, cfg, u) for u in dirs]
+    n = max(len(p[0]) for p in per)
+    env = {"round_trip": [max((p[0][j] if j < len(p[0]) else 0.0) for p in per) for j in range(n)],
+           "energy": [max((p[1][j] if j < len(p[1]) else 0.0) for p in per) for j in range(n)]}
+    res = {"cfg": list(cfg), "dirs": [list(u) for u in dirs], "r": rs[:n], "round_trip": env["round_trip"], "energy": env["energy"]}
+    system, point, cm = get_cm(*cfg)
+    EL = float(hiten()["crtbp_energy"](np.r_[point.position, 0.0, 0.0, 0.0], system.mu))
+    RT_FLOOR, EN_FLOOR = floors(point, EL)
+    res["floors"] = [RT_FLOOR, EN_FLOOR]
+    res["fit"] = {"round_trip": envelope_fit(N, rs[:n], env["round_trip"], RT_FLOOR), "energy": envelope_fit(N, rs[:n], env["energy"], EN_FLOOR)}
     return res
 
 
@@ -994,54 +1022,62 @@ def margin(N):
     return 0.5 if N <= 6 else 1.5
 
 
+def judge_scaling(ctx, res):
+    cfg = tuple(res["cfg"])
+    N = cfg[2]
+    for name in ("round_trip", "energy"):
+        f = res["fit"][name]
+        ctx.case(("scaling", str(cfg), name), nontrivial=f["points"] >= 3, kind="scaling:%s:N%d" % (name, N),
+                 sample={"call": "to_synodic/to_cm", "system": str(cfg[0]), "point": "L%d" % cfg[1], "degree": N, "directions": len(res["dirs"]),
+                         "radii": res["r"], name: res[name], "fitted_exponent": f["exponent"]} if len(ctx.samples) < 10 else None)
+        if not f["exponent"] >= N + 1 - margin(N):
+            ctx.violation("scaling:%s:L%d" % (name, cfg[1]),
+                          "%s discrepancy does not vanish like r^(N+1): fitted exponent %.2f < %g (N=%d, %s L%d)" % (
+                              name, f["exponent"], N + 1 - margin(N), N, cfg[0], cfg[1]),
+                          {"kind": "scaling", "cfg": list(cfg), "dirs": res["dirs"], "radii": res["r"], "observed": res[name],
+                           "fitted_exponent": f["exponent"], "expected": "exponent >= %g" % (N + 1 - margin(N))})
+
+
 def scaling(ctx):
     rng = ctx.rng
     if ctx.thorough():
         cfgs = [("EM", lk, N) for lk in (1, 2) for N in (4, 5, 6, 7, 8)] + [("EM", 1, 10)]
         mus = [10 ** rng.uniform(-3.2, -1.0), 10 ** rng.uniform(-5.5, -3.2)]
         cfgs += [(("mu", mus[0]), 1, 6), (("mu", mus[0]), 2, 5), (("mu", mus[1]), 2, 6), (("mu", mus[1]), 1, 4)]
-        ndir = 3
+        ndir = 6
     else:
         cfgs = [("EM", lk, N) for lk in (1, 2) for N in (4, 5, 6)]
         mu = 10 ** rng.uniform(-3.2, -1.0)
         cfgs += [(("mu", mu), rng.choice([1, 2]), 5)]
-        ndir = 2
+        ndir = 4
     consts = {}
     table = []
     for cfg in cfgs:
-        N = cfg[2]
         t = time.time()
+        dirs = []
         for k in range(ndir):
-            if k == 0:
+            if k % 2 == 0:
                 u = [rng.gauss(0, 1) for _ in range(4)]
             else:   # axis-dominated directions: planar / vertical families
                 u = [rng.gauss(0, 0.15) for _ in range(4)]
                 u[rng.randrange(4)] += 1.0
             nu = math.sqrt(sum(x * x for x in u))
-            u = [x / nu for x in u]
-            try:
-                res = scaling_one(ctx, cfg, u)
-            except Exception as e:   # a conversion that raises on a point inside the domain is a failing input
-                ctx.violation("conversion-raises:%s" % type(e).__name__, "to_synodic/to_cm raised %r" % (e,),
-                              {"kind": "scaling", "cfg": list(cfg), "u": u})
-                continue
-            for name in ("round_trip", "energy"):
-                ex = res[name + "_exponent"]
-                ok = ex >= N + 1 - margin(N)
-                ctx.case(("scaling", str(cfg), k, name), nontrivial=res[name + "_points"] >= 3, kind="scaling:%s:N%d" % (name, N),
-                         sample={"call": "to_synodic/to_cm", "system": str(cfg[0]), "point": "L%d" % cfg[1], "degree": N, "direction": u,
-                                 "radii": res["r"], name: res[name], "fitted_exponent": ex} if len(ctx.samples) < 10 and k == 0 else None)
-                if not ok:
-                    ctx.violation("scaling:%s:L%d" % (name, cfg[1]),
-                                  "%s discrepancy does not vanish like r^(N+1): fitted exponent %.2f < %g (N=%d, %s L%d)" % (
-                                      name, ex, N + 1 - margin(N), N, cfg[0], cfg[1]),
-                                  {"kind": "scaling", "cfg": list(cfg), "u": u, "radii": res["r"], "observed": res[name],
-                                   "fitted_exponent": ex, "expected": "exponent >= %g" % (N + 1 - margin(N))})
-                c = consts.setdefault(cfg, {})
-                c[name] = max(c.get(name, 0.0), res[name + "_const"])
-            table.append({"cfg": str(cfg), "dir": k, "rt_exp": round(res["round_trip_exponent"], 2), "en_exp": round(res["energy_exponent"], 2),
-                          "rt_max": max(res["round_trip"]), "en_max": max(res["energy"])})
-        ctx.log("scaling %s: %s (%.1fs)" % (str(cfg), ", ".join("rt %.2f en %.2f" % (r["rt_exp"], r["en_exp"]) for r in table[-ndir:]), time.time() - t))
+            dirs.append([x / nu for x in u])
+        try:
+            res = scaling_cfg(ctx, cfg, dirs)
+        except Exception as e:   # a conversion that raises on a point inside the domain is a failing input
+            ctx.violation("conversion-raises:%s" % type(e).__name__, "to_synodic/to_cm raised %r" % (e,),
+                          {"kind": "scaling", "cfg": list(cfg), "dirs": dirs})
+            continue
+        judge_scaling(ctx, res)
+        consts[cfg] = {"round_trip": res["fit"]["round_trip"]["const"], "energy": res["fit"]["energy"]["const"]}
+        table.append({"cfg": str(cfg), "rt_exp": round(res["fit"]["round_trip"]["exponent"], 2), "en_exp": round(res["fit"]["energy"]["exponent"], 2),
+                      "rt_exp_all_radii": round(res["fit"]["round_trip"]["exponent_all"], 2), "en_exp_all_radii": round(res["fit"]["energy"]["exponent_all"], 2),
+                      "rt_max": max(res["round_trip"]), "en_max": max(res["energy"]), "points": [res["fit"]["round_trip"]["points"], res["fit"]["energy"]["points"]],
+                      "radii": res["r"], "round_trip_envelope": res["round_trip"], "energy_envelope": res["energy"], "floors": res["floors"],
+                      "directions": res["dirs"]})
+        ctx.log("scaling %s: round trip %.2f, energy %.2f (expected %d; %d directions, %.1fs)" % (
+            str(cfg), table[-1]["rt_exp"], table[-1]["en_exp"], cfg[2] + 1, ndir, time.time() - t))
     ctx.extra["scaling_fits"] = table
     return consts
 
@@ -1083,6 +1119,7 @@ def section_check(ctx, cfg, cm, ham, point, mu, gamma, EL, const, sc, h0, pt, wo
     N = cfg[2]
     si = SECS.index(sc)
     pc = (0, 1) if sc in ("q3", "p3") else (2, 3)
+    RT_FLOOR, EN_FLOOR = floors(point, EL)
     rp = {"kind": "section", "cfg": list(cfg), "section_coord": sc, "energy": h0, "plane_point": [float(pt[0]), float(pt[1])]}
     try:
         s = cm.to_synodic(pt, energy=h0, section_coord=sc)
@@ -1202,14 +1239,9 @@ def run(ctx):
 def replay(ctx, rec):
     rp = rec.get("replay", rec)
     kind = rp.get("kind")
-    if kind == "scaling" and "cfg" in rp and "u" in rp:
+    if kind == "scaling" and "cfg" in rp and "dirs" in rp:
         cfg = tuple(tuple(c) if isinstance(c, list) else c for c in rp["cfg"])
-        res = scaling_one(ctx, cfg, rp["u"])
-        N = cfg[2]
-        for name in ("round_trip", "energy"):
-            if res[name + "_exponent"] < N + 1 - margin(N):
-                ctx.violation("scaling:%s:L%d" % (name, cfg[1]), "fitted exponent %.2f < %g" % (res[name + "_exponent"], N + 1 - margin(N)),
-                              {"kind": "scaling", "cfg": list(cfg), "u": rp["u"], "radii": res["r"], "observed": res[name]})
+        judge_scaling(ctx, scaling_cfg(ctx, cfg, rp["dirs"]))
         ctx.obligations["replay-executed"] = True
     elif kind == "section" and "cfg" in rp:
         h = hiten()
@@ -1217,9 +1249,8 @@ def replay(ctx, rec):
         system, point, cm = get_cm(*cfg)
         mu = system.mu
         EL = float(h["crtbp_energy"](np.r_[point.position, 0.0, 0.0, 0.0], mu))
-        u = [0.5, 0.5, 0.5, 0.5]
-        res = scaling_one(ctx, cfg, u)
-        const = {"energy": res["energy_const"], "round_trip": res["round_trip_const"]}
+        res = scaling_cfg(ctx, cfg, [[0.5, 0.5, 0.5, 0.5], [0.9, 0.1, 0.4, 0.1], [0.1, 0.3, 0.2, 0.9]])
+        const = {"energy": res["fit"]["energy"]["const"], "round_trip": res["fit"]["round_trip"]["const"]}
         section_check(ctx, cfg, cm, cm.hamiltonian(cfg[2]), point, mu, point.dynamics.gamma, EL, const, rp["section_coord"], rp["energy"],
                       np.array(rp["plane_point"]))
         ctx.obligations["replay-executed"] = True
